@@ -54,6 +54,7 @@ type Contract struct {
 	Ensures    []*Expr
 	Modifies   []*Expr
 	ModHeaps   []string // whole component heaps (weak frame, used for assembly routines)
+	ModFresh   []string // component heaps, but only objects allocated since the verified function was entered
 	ModAll     bool
 	PanicsIff  *Expr
 	Decreases  *Expr
@@ -270,6 +271,10 @@ func (db *ContractDB) LoadContractFile(path, pkgPath string) error {
 			for _, part := range splitTop(rest, ',') {
 				if strings.HasPrefix(part, "heap ") {
 					cur.ModHeaps = append(cur.ModHeaps, strings.TrimSpace(strings.TrimPrefix(part, "heap ")))
+					continue
+				}
+				if strings.HasPrefix(part, "fresh ") {
+					cur.ModFresh = append(cur.ModFresh, strings.TrimSpace(strings.TrimPrefix(part, "fresh ")))
 					continue
 				}
 				e, err := pe(part)
